@@ -17,10 +17,14 @@
    The compiler front end is the same function of the sources in both runs only if the jmc.txt it reads is intact: that
    is the last clause of C11_crash_recover (true for [v_cert_atomic]; for [fixed] a torn write INTO jmc.txt changes the
    internal names the re-run compiles with — known finding C11-torn-cert until fixes/C11-atomic-cert.patch is committed).
-   Outside the model's reach (see reports/C11.md): files an earlier build put outside these folders (a dropped #override
-   namespace, #copy destinations) are by C10 not JMC's to delete. *)
+   Outside the theorems' reach: files an earlier build put outside the folders of the current one (a dropped #override /
+   #link namespace: C11_dropped_override_refuted, known finding; #copy destinations; pack.mcmeta under #nometa) are by C10
+   not JMC's to delete.  A generated file inside a #static folder is #static content from then on (C11_fresh equates it in
+   both trees) - except that the function tags are files JMC edits in place: C11_tick_tag_no_stale_entry
+   ([v_tick_refresh], fixes/C11-stale-own-tick-entry.patch) / C11_stale_tick_refuted_hardened.
+   [guarded] = [hardened] + the three patches of reports/C10C11-triage.md; [run] = [run_core] behind [gate] (Model/Build.v). *)
 From Coq Require Import String List Bool.
-From JMCV Require Import Model.FS Model.Build Proofs.FS Proofs.Build Proofs.BuildC10 Proofs.BuildC11.
+From JMCV Require Import Model.FS Model.Build Proofs.FS Proofs.Build Proofs.BuildC10 Proofs.BuildC11 Proofs.BuildGate Proofs.BuildTick.
 Import ListNotations.
 
 (* After a successful compile the output is what the same project gives from ANY other startable tree with the same
@@ -34,7 +38,7 @@ Theorem C11_fresh : forall v c h o s1 s2 pl1 pl2 s1' s2',
   run v c h (Success o) None s2 = (pl2, RDone) -> exec pl2 s2 = Some s2' ->
   forall p, inside c h p = true \/ In p (map op_path (filter creates pl1)) ->
   file_at s1' p = file_at s2' p.
-Proof. exact fresh. Qed.
+Proof. exact g_fresh. Qed.
 Print Assumptions C11_fresh.
 
 (* ... in particular what compiling into an empty directory produces *)
@@ -44,7 +48,7 @@ Theorem C11_fresh_empty : forall v c h o s pl s' ple e',
   run v c h (Success o) None s = (pl, RDone) -> exec pl s = Some s' ->
   run v c h (Success o) None empty_out = (ple, RDone) -> exec ple empty_out = Some e' ->
   forall p, inside c h p = true \/ In p (map op_path (filter creates pl)) -> file_at s' p = file_at e' p.
-Proof. exact fresh_empty. Qed.
+Proof. exact g_fresh_empty. Qed.
 Print Assumptions C11_fresh_empty.
 
 (* compiling twice changes nothing *)
@@ -55,7 +59,7 @@ Theorem C11_twice : forall v c h o s pl s' pl' s'',
   run v c h (Success o) None s' = (pl', RDone) -> exec pl' s' = Some s'' ->
   forall p, inside c h p = true \/ In p (map op_path (filter creates pl')) ->
   file_at s'' p = file_at s' p.
-Proof. exact twice. Qed.
+Proof. exact g_twice. Qed.
 Print Assumptions C11_twice.
 
 (* Kill the build at ANY mutation (also with an injected deletion failure, also with the last write torn) and run it
@@ -77,7 +81,7 @@ Theorem C11_crash_recover : forall v c h o fault s ops k,
   ( v_cert_atomic v = true -> cert_exclusive c h (Success o) = true ->
     file_at k (cert_path c) = file_at s (cert_path c) \/ file_at k (cert_path c) = None \/
     file_at k (cert_path c) = Some (Raw (c_cert c)) ).
-Proof. exact crash_recover_cert. Qed.
+Proof. exact g_crash_recover_cert. Qed.
 Print Assumptions C11_crash_recover.
 
 (* the certificate clause alone holds for every outcome of the front end and needs nothing but [v_cert_atomic] *)
@@ -86,7 +90,7 @@ Theorem C11_crash_cert_whole : forall v c h out fault s ops k,
   crash_trace (plan v c h out fault s) ops -> exec ops s = Some k ->
   file_at k (cert_path c) = file_at s (cert_path c) \/ file_at k (cert_path c) = None \/
   file_at k (cert_path c) = Some (Raw (c_cert c)).
-Proof. exact crash_cert_whole. Qed.
+Proof. exact g_crash_cert_whole. Qed.
 Print Assumptions C11_crash_cert_whole.
 
 (* [fixed] (jmc.txt written in place; known finding C11-torn-cert while fixes/C11-atomic-cert.patch is not committed):
@@ -96,7 +100,7 @@ Theorem C11_torn_cert_refuted_fixed :
     exec ops x_empty = Some k /\ cert_exclusive z_cfg x_hdr (Success x_B) = true /\
     file_at k (cert_path z_cfg) = Some (Raw "LOAD=__load__
 PRIVATE=__priv"%string).
-Proof. exact torn_cert_refuted_fixed. Qed.
+Proof. exact g_torn_cert_refuted_fixed. Qed.
 Print Assumptions C11_torn_cert_refuted_fixed.
 
 (* ... the same kill under [hardened] tears jmc.txt.tmp: jmc.txt does not exist yet and the re-run is refused *)
@@ -106,7 +110,7 @@ Example C11_torn_tmp_hardened :
     file_at k (cert_tmp z_cfg) = Some (Raw "LOAD=__load__
 PRIVATE=__priv"%string) /\ file_at k (cert_path z_cfg) = None /\
     run hardened z_cfg x_hdr (Success x_B) None k = ([], RRefused).
-Proof. exact torn_tmp_hardened. Qed.
+Proof. exact g_torn_tmp_hardened. Qed.
 Print Assumptions C11_torn_tmp_hardened.
 
 (* "after any sequence of earlier successful, failed or interrupted builds": from a tree without JMC-owned files,
@@ -114,8 +118,8 @@ Print Assumptions C11_torn_tmp_hardened.
    share namespace, override namespaces and #static folders ends in a [ready] tree — the hypothesis of
    C11_crash_recover, and (when the namespace folder has its jmc.txt, or is absent) of C11_fresh. *)
 Theorem C11_history_ready : forall v c h s0 s,
-  sound v -> c_ns c <> "minecraft"%string -> clean c h s0 -> hist v c h s0 s -> ready c h s.
-Proof. exact history_ready. Qed.
+  sound v -> c_ns c <> "minecraft"%string -> clean c h s0 -> ghist v c h s0 s -> ready c h s.
+Proof. exact g_history_ready. Qed.
 Print Assumptions C11_history_ready.
 
 (* pinned: build A (tick function), then build B (no tick function) killed after the namespace rmtree (4 mutations)
@@ -129,7 +133,7 @@ Theorem C11_refuted_crash_between_rmtrees_pinned :
     exec (plan pinned x_cfg x_hdr (Success x_B) None x_empty) x_empty = Some fresh' /\
     file_at fresh' (tick_path x_cfg) = None /\
     file_at k' (tick_path x_cfg) = Some (Tag ["ns:__tick__"%string]).
-Proof. exact crash_between_rmtrees_refuted_pinned. Qed.
+Proof. exact g_crash_between_rmtrees_refuted_pinned. Qed.
 Print Assumptions C11_refuted_crash_between_rmtrees_pinned.
 
 (* non-vacuity: the same history under the repaired model — killed when every deletion is done and nothing is
@@ -141,5 +145,53 @@ Example C11_crash_recovered_fixed :
     exec (plan fixed x_cfg x_hdr (Success x_B) None x_empty) x_empty = Some y_fresh /\
     file_at y_k' (tick_path x_cfg) = None /\ file_at y_fresh (tick_path x_cfg) = None /\
     file_at y_k' ["."; "data"; "ns"; "function"; "g.mcfunction"]%string = Some (Raw "say g").
-Proof. exact crash_recovered_fixed. Qed.
+Proof. exact g_crash_recovered_fixed. Qed.
 Print Assumptions C11_crash_recovered_fixed.
+
+(* What an earlier build leaves OUTSIDE the folders of the current one.  Build A declares `#override foo` and emits foo.h,
+   build B drops the directive: data/foo is not a folder of B ([inside] false), so B does not delete it (C10 forbids it),
+   A's file survives and the fresh build of B does not have it.  JMC keeps no record of the namespaces an earlier build
+   overrode or linked - known finding C11-dropped-override-left-behind (no small safe repair: deleting a folder the
+   current header does not declare is a territory violation). *)
+Theorem C11_dropped_override_refuted :
+  exec (plan guarded x_cfg d_hdrA (Success d_A) None x_empty) x_empty = Some d_after_A /\
+  run guarded x_cfg x_hdr (Success x_B) None d_after_A = (plan guarded x_cfg x_hdr (Success x_B) None d_after_A, RDone) /\
+  exec (plan guarded x_cfg x_hdr (Success x_B) None d_after_A) d_after_A = Some d_after_B /\
+  exec (plan guarded x_cfg x_hdr (Success x_B) None x_empty) x_empty = Some d_fresh /\
+  file_at d_after_B ["."; "data"; "foo"; "function"; "h.mcfunction"]%string = Some (Raw "say h") /\
+  file_at d_fresh ["."; "data"; "foo"; "function"; "h.mcfunction"]%string = None /\
+  inside x_cfg x_hdr ["."; "data"; "foo"; "function"; "h.mcfunction"]%string = false.
+Proof. exact dropped_override_refuted. Qed.
+Print Assumptions C11_dropped_override_refuted.
+
+(* A tick.json shielded by a #static folder (`#static "../minecraft"`, `#static "../minecraft/tags/function"`).  Build A
+   has a tick function, the user then declares the folder static, build B has no tick function.  [hardened]: tick.json keeps
+   naming ns:__tick__ (Minecraft drops a function tag that names a missing function).  C11_fresh does not see it - the file
+   is part of the #static content its hypothesis equates - so the defect is stated here ... *)
+Theorem C11_stale_tick_refuted_hardened :
+  exec (plan hardened x_cfg t_hdr (Success x_B) None (t_after_A hardened)) (t_after_A hardened) = Some (t_after_B hardened) /\
+  snd (run hardened x_cfg t_hdr (Success x_B) None (t_after_A hardened)) = RDone /\
+  file_at (t_after_B hardened) (tick_path x_cfg) = Some (Tag ["ns:__tick__"%string]).
+Proof. exact stale_tick_refuted_hardened. Qed.
+Print Assumptions C11_stale_tick_refuted_hardened.
+
+(* General form of the repair: with [v_tick_refresh], after ANY successful build of a project without tick function - from
+   any initial tree, with any #static / #copy / #override / #link, old output deleted or not - the tick tag, if the file is
+   there at all, names no function of this pack.  (Hypothesis: no emitted function / JSON file is the tick tag itself, as
+   `new tags.function(minecraft.tick)` under `#override minecraft` would be.) *)
+Theorem C11_tick_tag_no_stale_entry : forall v c h o s pl s' vs e,
+  v_tick_refresh v = true -> o_tick o = false ->
+  (forall q, In q (map fst (out_files c h o)) -> q <> tick_path c) ->
+  run v c h (Success o) None s = (pl, RDone) -> exec pl s = Some s' ->
+  file_at s' (tick_path c) = Some (Tag vs) -> In e vs -> own_entry c e = false.
+Proof. exact tick_no_stale_own. Qed.
+Print Assumptions C11_tick_tag_no_stale_entry.
+
+(* ... and repaired by [v_tick_refresh] (fixes/C11-stale-own-tick-entry.patch): the same history under [guarded] *)
+Example C11_stale_tick_refreshed_guarded :
+  exec (plan guarded x_cfg t_hdr (Success x_B) None (t_after_A guarded)) (t_after_A guarded) = Some (t_after_B guarded) /\
+  snd (run guarded x_cfg t_hdr (Success x_B) None (t_after_A guarded)) = RDone /\
+  file_at (t_after_B guarded) (tick_path x_cfg) = Some (Tag []) /\
+  file_at (t_after_B guarded) (load_path x_cfg) = Some (Tag ["ns:__load__"%string]).
+Proof. exact stale_tick_refreshed_guarded. Qed.
+Print Assumptions C11_stale_tick_refreshed_guarded.
